@@ -91,6 +91,15 @@ def run(ctx):
         gg = list(dict.fromkeys(randn[i:i + 5]))
         if len(gg) >= 2:
             groups.append(("d", rng.randint(0, len(gg) - 1), gg))
+    # the same substitution inside rspfile_content (what a response file holds is read by shells as well: xargs, $(cat f))
+    for i in range(0, len(names3), 16 * 4):
+        gg = list(dict.fromkeys(names3[i:i + 8]))
+        if len(gg) >= 2:
+            groups.append((rng.choice("rq"), rng.randint(1, len(gg) - 1), gg))
+    for i in range(0, len(randn), 16 * 2):
+        gg = list(dict.fromkeys(randn[i:i + 6]))
+        if len(gg) >= 2:
+            groups.append((rng.choice("rq"), rng.randint(1, len(gg) - 1), gg))
     # $in_newline with a single input (a newline inside a command line is the shell's separator,
     # so multi-name $in_newline only makes sense in response files)
     for nm in names1 + names3[::3] + randn[::4] + names2[ctx.seed % 16::16]:
@@ -155,7 +164,9 @@ def run(ctx):
                 ctx.violation("C16/unescaped-path-binding", "depfile = $out.d / rspfile = $out.rsp for outputs %r evaluate to %r / %r (again: %r)" %
                               ([util.show(x) for x in g[nin:]], df, rf, df2), {"mode": mode, "nin": nin, "names_hex": [x.hex() for x in g]})
                 continue
-        exp = (g[:nin] + [b"--"] + g[nin:]) if mode in ("c", "d") else g
+        if mode in "rq":
+            ctx.count("rspfile_content_substitutions_checked")
+        exp = (g[:nin] + [b"--"] + g[nin:]) if mode in ("c", "d", "r", "q") else g
         toks = so.decode().split()
         got = [b"" if t == "-" else bytes.fromhex(t) for t in toks]
         if rc != 0 or got != exp:
@@ -165,7 +176,7 @@ def run(ctx):
                 if k >= len(got) or got[k] != e:
                     culprit = e
                     break
-            sig = "C16/argv-mismatch/%s" % (culprit.hex()[:24] if culprit is not None else "extra-args")
+            sig = "C16/%s/%s" % ("rspfile-content-not-one-word-per-name" if mode in "rq" else "argv-mismatch", culprit.hex()[:24] if culprit is not None else "extra-args")
             ctx.violation(sig, "command %r: sh rc=%s stderr=%r argv=%r expected=%r" %
                           (util.show(cmd), rc, se[:200], [util.show(x) for x in got][:20], [util.show(x) for x in exp][:20]),
                           {"mode": mode, "nin": nin, "names_hex": [x.hex() for x in g]})
@@ -173,14 +184,14 @@ def run(ctx):
         ctx.count("argv_equal")
         # verbatim rule
         if all(SAFE.match(x) for x in g):
-            want = tool.encode() + b" " + (b" ".join(g[:nin]) + b" -- " + b" ".join(g[nin:]) if mode in ("c", "d") else g[0])
+            want = tool.encode() + b" " + (b" ".join(g[:nin]) + b" -- " + b" ".join(g[nin:]) if mode in ("c", "d", "r", "q") else g[0])
             ctx.count("verbatim_checked")
             if cmd != want:
                 ctx.violation("C16/not-verbatim", "safe names quoted: %r" % util.show(cmd))
         for x in g:
             if not SAFE.match(x):
                 seen_names.add(x)
-            elif mode in ("c", "d"):
+            elif mode in ("c", "d", "r", "q"):
                 # a safe name must appear unquoted even among unsafe neighbours
                 if not re.search(rb"(^| )" + re.escape(x) + rb"( |$)", cmd):
                     ctx.violation("C16/not-verbatim", "safe name %r quoted in %r" % (x, util.show(cmd)))
